@@ -40,22 +40,34 @@ def parseWeighting (s : String) : Option Weighting :=
   match s.splitOn "@" with
   | [a, e] => do
       let e ← parseExp e
-      if a = "a" then some (.array e)
+      if a = "k" then some (.custom e)
+      else if a.startsWith "a" then (parseDType (a.drop 1).toString).map (fun d => .array d e)
       else if a.startsWith "c" then (parseRat (a.drop 1).toString).map (fun c => .const c e)
       else none
   | _ => none
 
 def showWeighting : Weighting → String
   | .const c e => s!"c{showRat c}@{showExp e}"
-  | .array e => s!"a@{showExp e}"
+  | .array d e => s!"a{showDType d}@{showExp e}"
+  | .custom e => s!"k@{showExp e}"
+
+def parseSide (s : String) : Option Side :=
+  if s.startsWith "nu:" then
+    ((s.drop 3).toString.splitOn "|").mapM parseRat |>.map .nonuniform
+  else (parseRat s).map .uniform
+
+def showSide : Side → String
+  | .uniform r => showRat r
+  | .nonuniform pts => "nu:" ++ "|".intercalate (pts.map showRat)
 
 def parseCell (s : String) : Option Cell :=
   match s.splitOn "," with
-  | [a, b, n] => do
+  | [a, b, n, sd] => do
       let a ← parseRat a
       let b ← parseRat b
       let n ← n.toNat?
-      some ⟨a, b, n⟩
+      let sd ← parseSide sd
+      some ⟨a, b, n, sd⟩
   | _ => none
 
 def parsePart (s : String) : Option (List Cell) :=
@@ -63,7 +75,7 @@ def parsePart (s : String) : Option (List Cell) :=
 
 def showPart (p : List Cell) : String :=
   if p.isEmpty then "-"
-  else ";".intercalate (p.map fun c => s!"{showRat c.lo},{showRat c.hi},{c.n}")
+  else ";".intercalate (p.map fun c => s!"{showRat c.lo},{showRat c.hi},{c.n},{showSide c.side}")
 
 def parseMethod : String → Option Method
   | "call" => some .call | "reduce" => some .reduce | "accumulate" => some .accumulate
@@ -110,15 +122,13 @@ def parseNp (s : String) : Option NpRes :=
   if s.startsWith "err:" then some (.err (s.drop 4).toString)
   else ((s.splitOn "|").mapM parseNpVal).map .ok
 
-/-- `w~part` of one discretized input (constant weighting only). -/
+/-- `w~part` of one discretized input. -/
 def parseInPart (dt : DType) (s : String) : Option DSelf :=
   match s.splitOn "~" with
   | [w, p] => do
       let wt ← parseWeighting w
       let part ← parsePart p
-      match wt with
-      | .const cc e => some ⟨part, dt, cc, e⟩
-      | .array _ => none
+      some ⟨part, dt, wt⟩
   | _ => none
 
 def parseInParts (dt : DType) (s : String) : Option (List DSelf) :=
@@ -154,13 +164,9 @@ def parseReq (l : Line) : Option Req := do
   let axis ← l.get? "axis" >>= parseAxis
   let keepdims ← l.bool? "keepdims"
   let np ← l.get? "np" >>= parseNp
-  -- consistency: a discretized request must carry a partition of the stated shape and a
-  -- constant weighting
+  -- consistency: a discretized request must carry a partition of the stated shape
   if kind = .discr then
     if part.map (·.n) ≠ shape then none
-    match w with
-    | .array _ => none
-    | _ => pure ()
   some { kind, shape, dt, w, part, method, nin, nout, outs, ins, inParts, axis, keepdims, np }
 
 def doUfunc (l : Line) : Option String := do
@@ -232,12 +238,30 @@ def doElement (l : Line) : Option String := do
   | .err c => some s!"err:{c}"
   | .ok sh => some s!"ok shares={if sh then 1 else 0}"
 
+/-- `npreduce shape=2x3 axis=-1,0` → the model's `npReduce` on the shape -/
+def doNpReduce (l : Line) : Option String := do
+  let sh ← l.get? "shape" >>= parseShape
+  let ax ← l.get? "axis" >>= parseAxis
+  match ax with
+  | .ints a => match npReduce sh a with
+      | some r => some s!"ok {showShape r}"
+      | none => some "err"
+  | _ => none
+
+/-- `cancast src=<dtype> dst=<dtype>` → the model's `np.can_cast` (safe) -/
+def doCanCast (l : Line) : Option String := do
+  let a ← l.get? "src" >>= parseDType
+  let b ← l.get? "dst" >>= parseDType
+  some (if a.canCast b then "1" else "0")
+
 def handle (l : Line) : Option String :=
   match l.op with
   | "ufunc" => doUfunc l
   | "legacy" => doLegacy l
   | "legacyred" => doLegacyRed l
   | "element" => doElement l
+  | "cancast" => doCanCast l
+  | "npreduce" => doNpReduce l
   | "plegacy" => doPLegacy l
   | "plegacyred" => doPLegacyRed l
   | _ => none
